@@ -6,6 +6,7 @@
 //                         extractScaling, extractScalingAndShear, extractAndRemoveScalingAndShear, sansScaling,
 //                         removeScaling, sansScalingAndShear (both overloads), removeScalingAndShear
 //   shrt3d-degenerate-T : zero scales must be reported by every entry point in both exc modes; 1e-30 scales
+//   shrt3d-uniformly-scaled-T : well-conditioned matrices x exact powers of two (all entries subnormal, tiny normal, near max/8)
 //   shrt3d-singular-T   : every singular 3x3 part over {-1,0,1,2} without a zero row: entry points and exc modes agree,
 //                         documented fallbacks; reported when the orthogonalised scale is provably exactly zero
 //   computeRSMatrix-T   : documented mix S_x * R_y * T_A for all four flag combinations
